@@ -11,9 +11,14 @@ FORM OF THE HYPOTHESIS.  Everything here is proved under
                             `d(a∪b, x)` is non-NaN and `t ≤ d(a∪b,x)`.
 `ChainReducible α .single` and `ChainReducible α .complete` are THEOREMS (`chainReducible_single`,
 `chainReducible_complete`: the update returns one of its two arguments), so for these two methods the
-results are unconditional beyond `OrderLaws` + non-NaN input.  For average / weighted / Ward
-`ChainReducible` holds in exact arithmetic (`Lemmas/ChainExact.lean`) and is FALSE for IEEE floats
-(rounding breaks it in ~11% of tied updates), so for them it stays a named hypothesis.
+results are unconditional beyond `OrderLaws` + non-NaN input.  Since the `fix:` commit of the crate
+(`method::average` clamps the mean from below by the smaller argument) the `ge` clause of
+`ChainReducible α .average` is a THEOREM from `OrderLaws` too (`chainReducible_average`,
+`Lemmas/ChainIter.lean`; only the no-NaN-generation clause `AverageNoNaN α` stays a hypothesis);
+for the UNCLAMPED average it was false for IEEE floats (failing run of the real crate: n = 14, f32).
+For weighted / Ward `ChainReducible` holds in exact arithmetic (`Lemmas/ChainExact.lean`) and is
+FALSE for IEEE floats (rounding breaks it in ~11% of tied updates), so for them it stays a named
+hypothesis.
 
 THE INVARIANT.  With `D = M.dval` and the chain read top-first as `q :: p :: rest`, `ChainL D live`:
 entries are live and pairwise distinct, and for every suffix `q :: p :: rest` every entry `c` of
